@@ -139,7 +139,7 @@ PREAMBLES = {
     'cls-en-pkg-de': ('\\documentclass[english]{article}\n\\usepackage[ngerman]{babel}\n', 'ru-RU', 'de-DE'),
     'cls-ru-pkg-none': ('\\documentclass[russian,a4paper]{scrartcl}\n\\usepackage[T1]{fontenc}\\usepackage{babel}\n', 'en-GB', 'ru-RU'),
 }
-TAILS = [None, '\\LaTeX', '\\xxx', 'NOWORD', 'ADJ', 'ADJNL', 'LEADWS', '\\footnotemark']
+TAILS = [None, '\\LaTeX', '\\xxx', 'NOWORD', 'ADJ', 'ADJNL', 'LEADWS', '\\footnotemark', '\\LaTeX ', '\\xxx\n']
 
 
 class C12:
